@@ -11,7 +11,7 @@ def workdir(prefix="tlc"):
     return tempfile.mkdtemp(prefix=prefix + "_", dir=WORK)
 
 
-def run_tlc(module, cfg_text=None, cfg_file=None, workers=16, timeout=600, simulate=None, depth=None, seed=None,
+def run_tlc(module, cfg_text=None, cfg_file=None, workers=None, timeout=600, simulate=None, depth=None, seed=None,
             dump_dot=None, env=None, deadlock=None, extra=(), name=None, keep=False, coverage=False, dfs=False,
             heap="4g", sim_file=None, files=None):
     """Runs TLC on spec/<module>.tla.  Returns dict(ok, finished, distinct, generated, depth, error, error_kind,
@@ -19,6 +19,8 @@ def run_tlc(module, cfg_text=None, cfg_file=None, workers=16, timeout=600, simul
     cfg_text: contents of the .cfg to use (written to the scratch dir); cfg_file: a file under spec/."""
     wd = workdir(module)
     t0 = time.time()
+    if workers is None:
+        workers = int(os.environ.get("VERIF_TLC_WORKERS", "16"))
     try:
         # TLC resolves modules relative to the root module's directory: copy all specs into the scratch dir
         for f in os.listdir(SPEC):
